@@ -1,10 +1,11 @@
-use crate::{validate_delimited_id, Error};
+use crate::{validate_delimited_id, validate_id, Error};
 
 pub fn validate(s: &str) -> Result<(), Error> {
     if s.contains(':') {
         validate_delimited_id(s, b'$')?;
-    } else if !s.starts_with('$') {
-        return Err(Error::MissingLeadingSigil);
+    } else {
+        // Event IDs without a server name are subject to the length limit too.
+        validate_id(s, b'$')?;
     }
 
     Ok(())
